@@ -564,7 +564,12 @@ def run_getitem(case):
             res["fails"].append((f"getitem:{key_sfx}", f"{where}.covariance_matrix has shape {rc.shape}, the "
                                  f"marginal of the selected components has shape {cov_ref.shape}"))
         else:
-            bad = (np.abs(rc - cov_ref) > ATOL + RTOL * max(1.0, float(np.max(np.abs(cov_ref))) if cov_ref.size else 1.0)) & ~amb
+            if case.get("tiny"):
+                dgr = np.abs(np.diagonal(cov_ref, axis1=-2, axis2=-1))
+                tol_ = 1e-300 + RTOL * np.sqrt(dgr[..., :, None] * dgr[..., None, :])
+            else:
+                tol_ = ATOL + RTOL * max(1.0, float(np.max(np.abs(cov_ref))) if cov_ref.size else 1.0)
+            bad = ~(np.abs(rc - cov_ref) <= tol_) & ~amb
             if bad.any():
                 pos = tuple(int(x) for x in np.argwhere(bad)[0])
                 asym = float(np.max(np.abs(rc - np.swapaxes(rc, -1, -2))))
@@ -769,7 +774,7 @@ def run_logprob(case):
             res["fails"].append((f"logprob:shape:{cls}", f"{where}: log_prob has shape {lp.shape}, expected {exp.shape}"))
             return res
         tol = (1e-6 if cfg == "cg-quad" else RTOL)
-        bad = np.abs(lp - exp) > ATOL + tol * np.maximum(1.0, np.abs(exp))
+        bad = ~(np.abs(lp - exp) <= ATOL + tol * np.maximum(1.0, np.abs(exp)))   # NaN counts as a deviation
         if bad.any():
             o = tuple(int(x) for x in np.argwhere(bad)[0])
             res["fails"].append((f"logprob:value:{cfg}:{cls}", f"{where}: log_prob{list(o)} = {lp[o]!r}, Gaussian log "
@@ -876,7 +881,7 @@ def run_kl(case):
         if kl.shape != exp.shape:
             res["fails"].append(("kl:shape", f"{where}: kl has shape {kl.shape}, expected {exp.shape}"))
             return res
-        bad = np.abs(kl - exp) > ATOL + RTOL * np.maximum(1.0, np.abs(exp))
+        bad = ~(np.abs(kl - exp) <= ATOL + RTOL * np.maximum(1.0, np.abs(exp)))   # NaN counts as a deviation
         if bad.any():
             o = tuple(int(x) for x in np.argwhere(bad)[0])
             # gpytorch's own algebra given the root the primitive returned
@@ -1367,6 +1372,12 @@ def _desc(case):
         a = case.get("arg")
         return (f"op {case['op']} {case['rep']} mean{np.array(case['mu']).shape} cov{np.array(case['S']).shape} "
                 f"arg={a if not isinstance(a, dict) else (a['rep'], np.array(a['mu']).shape)}")
+    if k == "hist":
+        return (f"hist {case['rep']} mean{np.array(case['mu']).shape} before={case['pre']} "
+                f"ops={[(o[0], o[1] if not isinstance(o[1], dict) else (o[1]['rep'],)) for o in case['ops']]}")
+    if k == "getitem-var":
+        return (f"getitem-var {case['rep']} {np.array(case['mu']).shape} scales={case['scales']} floor={case.get('floor')} "
+                f"{idx_show(idx_unjson(case['idx']))}")
     return f"{k} {case.get('rep')} mean{np.array(case['mu']).shape}"
 
 
@@ -1406,6 +1417,8 @@ def all_cases(ctx):
     cases += rsample_cases(ctx, ctx.rng("rsample"))
     cases += op_cases(ctx, ctx.rng("op"))
     cases += moments_cases(ctx, ctx.rng("moments"))
+    cases += hist_cases(ctx, ctx.rng("hist"))
+    cases += getitem_var_cases(ctx, ctx.rng("getitem-var"))
     return cases
 
 
@@ -1496,3 +1509,473 @@ def replay(ctx, payload):
     for k, w in res["fails"]:
         print(f"  {k}: {w}"[:400])
     return not res["fails"]
+
+
+# =============================================================== op-then-use histories (cached factors must follow the ops)
+
+USES = ("lp-torch", "lp-lo", "rsample", "scale_tril", "variance", "entropy", "cov")
+
+
+def _relclose(A, B, scale, rtol=RTOL):
+    """Entrywise |A-B| <= rtol*scale (scale broadcastable, >= 0) + 1e-300; NaN/inf never close; shapes must agree."""
+    np = _np()
+    A, B = np.asarray(A, dtype=float), np.asarray(B, dtype=float)
+    if A.shape != B.shape:
+        return False
+    if A.size == 0:
+        return True
+    return bool(np.all(np.abs(A - B) <= rtol * np.broadcast_to(scale, B.shape) + 1e-300))
+
+
+def _cov_scale(S):
+    np = _np()
+    dg = np.abs(np.diagonal(S, axis1=-2, axis2=-1))
+    return np.sqrt(dg[..., :, None] * dg[..., None, :])
+
+
+def _min_var():
+    import torch
+    import gpytorch.settings as gs
+    return float(gs.min_variance.value(torch.float64))
+
+
+def _sclass(a):
+    if not isinstance(a, (int, float)):
+        return ""
+    if a == 0:
+        return "(zero)"
+    t = "tiny" if abs(a) < 1e-3 else ""
+    return f"({'neg' if a < 0 else 'pos'}{t})"
+
+
+def _use(d, what, v, k):
+    """Exercise one consumer of the distribution (result discarded)."""
+    import torch
+    import gpytorch.settings as gs
+    if what == "lp-torch":
+        with gs.fast_computations(log_prob=False):
+            return d.log_prob(v)
+    if what == "lp-lo":
+        with gs.fast_computations(log_prob=True):
+            return d.log_prob(v)
+    if what == "rsample":
+        return d.rsample(base_samples=torch.ones(tuple(d.batch_shape) + (k,), dtype=torch.float64))
+    if what == "scale_tril":
+        return d.scale_tril
+    if what == "variance":
+        return d.variance
+    if what == "entropy":
+        return d.entropy()
+    if what == "cov":
+        return d.covariance_matrix
+    raise ValueError(what)
+
+
+def run_hist(case):
+    import torch
+    import gpytorch.settings as gs
+    np = _np()
+    mu, S, A, z = (np.array(case[k]) for k in ("mu", "S", "A", "z"))
+    rep, pre, ops = case["rep"], case["pre"], case["ops"]
+    n = mu.shape[-1]
+    B = mu.shape[:-1]
+    opsname = "+".join(o[0] + _sclass(o[1]) for o in ops)
+    where = f"{rep} batch={B} n={n} uses-before={pre} ops={[(o[0], o[1] if not isinstance(o[1], dict) else o[1]['rep']) for o in ops]}"
+    # ---- expected parameters, by the same operations on the random vector
+    m2, S2, sc = mu.copy(), S.copy(), 1.0
+    for name, arg in ops:
+        if name == "mul":
+            m2, S2, sc = m2 * arg, S2 * (arg * arg), sc * abs(arg)
+        elif name == "div":
+            c = 1.0 / arg
+            m2, S2, sc = m2 * c, S2 * (c * c), sc * abs(c)
+        elif name in ("add_scalar", "radd_scalar"):
+            m2 = m2 + arg
+        elif name == "sum":
+            m2, S2 = m2 + np.array(arg["mu"]), S2 + np.array(arg["S"])
+        elif name == "expand":
+            c = m2.shape[-1]
+            m2, S2 = np.broadcast_to(m2, tuple(arg) + (c,)), np.broadcast_to(S2, tuple(arg) + (c, c))
+        elif name == "unsqueeze":
+            dim = arg if arg >= 0 else m2.ndim - 1 + arg + 1
+            m2, S2 = np.expand_dims(m2, dim), np.expand_dims(S2, dim)
+        elif name == "jitter":
+            S2 = S2 + arg * np.eye(m2.shape[-1])
+        elif name == "getitem":   # batch entries: ints / slices; event entry: slice or one list
+            full = _expand_ellipsis(list(idx_plain(idx_unjson(arg))), m2.ndim)
+            ev = full[-1]
+            m2 = m2[tuple(full[:-1])][..., ev]
+            S2 = S2[tuple(full[:-1])]
+            S2 = S2[..., ev, :][..., :, ev]
+        elif name == "use":
+            pass
+    m2, S2 = np.array(m2), np.array(S2)
+    B2, n2 = m2.shape[:-1], m2.shape[-1]
+    singular = sc == 0.0
+    sd2 = np.sqrt(np.abs(np.diagonal(S2, axis1=-2, axis2=-1)))
+    z2 = z[..., :n2] if z.shape[:-1] == B2 else np.broadcast_to(z.reshape((-1, n))[0][:n2], B2 + (n2,))
+    v0 = mu + z
+    v2 = m2 + sc * z2
+    err, out, stage = None, {}, "construct"
+    try:
+        with warnings.catch_warnings():
+            warnings.simplefilter("ignore")
+            d = make_dist(rep, mu, S, A)
+            k = int(d.base_sample_shape[-1])
+            tv0 = torch.tensor(v0, dtype=torch.float64)
+            stage = "use-before"
+            for u in pre:
+                _use(d, u, tv0, k)
+            src_mean, src_cov = d.mean.detach().numpy().copy(), d.covariance_matrix.detach().numpy().copy()
+            r = d
+            for name, arg in ops:
+                stage = f"op:{name}"
+                if name == "mul":
+                    r = r * arg
+                elif name == "div":
+                    r = r / arg
+                elif name == "add_scalar":
+                    r = r + arg
+                elif name == "radd_scalar":
+                    r = arg + r
+                elif name == "sum":
+                    o = make_dist(arg["rep"], np.array(arg["mu"]), np.array(arg["S"]), np.array(arg["A"]))
+                    for u in pre:
+                        _use(o, u, torch.tensor(np.array(arg["mu"])), int(o.base_sample_shape[-1]))
+                    r = r + o
+                elif name == "expand":
+                    r = r.expand(torch.Size(arg))
+                elif name == "unsqueeze":
+                    r = r.unsqueeze(arg)
+                elif name == "jitter":
+                    r = r.add_jitter(arg)
+                elif name == "getitem":
+                    r = r[idx_real(idx_unjson(arg))]
+                elif name == "use":
+                    _use(r, arg, r.mean, int(r.base_sample_shape[-1]))
+            stage = "use-after"
+            out["batch"] = tuple(r.batch_shape)
+            out["mean"] = r.mean.detach().numpy()
+            out["cov"] = r.covariance_matrix.detach().numpy()
+            out["var"] = r.variance.detach().numpy()
+            out["sd"] = r.stddev.detach().numpy()
+            out["floor"] = _min_var()
+            if not singular:
+                tv2 = torch.tensor(v2, dtype=torch.float64)
+                # CG on a covariance scaled far away from 1 is limited by absolute thresholds inside linear_operator's
+                # CG (outside /repo): the quad-only CG path is exercised for moderate scales only
+                out["cfgs"] = [c for c in LP_CFGS if c != "cg-quad" or 1e-3 <= sc <= 1e3]
+                for cfg in out["cfgs"]:
+                    try:
+                        with _cfg_ctx(cfg):
+                            out["lp:" + cfg] = r.log_prob(tv2).detach().numpy()
+                    except Exception as e:
+                        out["lp:" + cfg] = e
+                try:
+                    out["entropy"] = r.entropy().detach().numpy()
+                except Exception as e:
+                    out["entropy"] = e
+                try:
+                    out["tril"] = r.scale_tril.detach().numpy()
+                except Exception as e:
+                    out["tril"] = e
+                try:
+                    kr = int(r.base_sample_shape[-1])
+                    cols = []
+                    for j in range(kr):
+                        u = np.zeros(B2 + (kr,))
+                        u[..., j] = 1.0
+                        cols.append(r.rsample(base_samples=torch.tensor(u)).detach().numpy() - out["mean"])
+                    out["X"] = np.stack(cols, -1)
+                except Exception as e:
+                    out["X"] = e
+            # the source distribution must be what it was
+            out["src_mean"], out["src_cov"] = d.mean.detach().numpy(), d.covariance_matrix.detach().numpy()
+            try:
+                with gs.fast_computations(log_prob=False):
+                    out["src_lp"] = d.log_prob(tv0).detach().numpy()
+            except Exception as e:
+                out["src_lp"] = e
+    except Exception as e:
+        err = e
+    lines, slots = [], []
+    if not singular:
+        for b in itertools.product(*[range(t) for t in B2]):
+            lines.append(f"logprob {C.mat_tokens(S2[b])} {C.vec_tokens(m2[b])} {C.vec_tokens(v2[b])}")
+            slots.append(("r", b))
+    for b in itertools.product(*[range(t) for t in B]):
+        lines.append(f"logprob {C.mat_tokens(S[b])} {C.vec_tokens(mu[b])} {C.vec_tokens(v0[b])}")
+        slots.append(("s", b))
+
+    def judge(replies):
+        res = {"status": "compared", "fails": [], "broke": []}
+
+        def fail(obs, msg):
+            res["fails"].append((f"history:{opsname}:{obs}", f"{where}: {msg}"))
+        if err is not None:
+            res["status"] = f"raised:{type(err).__name__}"
+            fail("raises", f"raises at {stage}: {type(err).__name__}: {str(err)[:160]}")
+            return res
+        lp_exp, ent_exp, src_exp = np.zeros(B2), np.zeros(B2), np.zeros(B)
+        for (w, b), rp in zip(slots, replies):
+            if rp == "singular":
+                res["status"] = "discarded-singular"
+                return res
+            kv = _kv(rp)
+            quad, det = float(Fraction(kv["quad"])), Fraction(kv["det"])
+            if det <= 0:
+                res["status"] = "discarded-nonpd"
+                return res
+            ld = _mp_log(det)
+            if w == "r":
+                lp_exp[b] = -0.5 * (quad + ld + n2 * math.log(2 * math.pi))
+                ent_exp[b] = 0.5 * (n2 * (1 + math.log(2 * math.pi)) + ld)
+            else:
+                src_exp[b] = -0.5 * (quad + ld + n * math.log(2 * math.pi))
+        if out["batch"] != tuple(B2):
+            fail("batch-shape", f"batch_shape {out['batch']}, expected {tuple(B2)}")
+            return res
+        if not _relclose(out["mean"], m2, np.maximum(np.abs(m2), sd2)):
+            fail("mean", "mean of the result differs from the mean of the transformed random vector")
+        if not _relclose(out["cov"], S2, _cov_scale(S2)):
+            fail("covariance", f"covariance_matrix of the result differs from the transformed covariance "
+                 f"(max dev {np.max(np.abs(out['cov'] - S2)) if out['cov'].shape == S2.shape else 'shape'})")
+        var_exp = np.maximum(np.diagonal(S2, axis1=-2, axis2=-1), out["floor"])
+        if not _relclose(out["var"], var_exp, np.abs(var_exp)):
+            fail("variance", f"variance differs from max(diag(covariance), min_variance={out['floor']})")
+        if not _relclose(out["sd"] ** 2, var_exp, np.abs(var_exp)):
+            fail("stddev", "stddev^2 differs from variance")
+        if not singular:
+            for cfg in out["cfgs"]:
+                got = out["lp:" + cfg]
+                if isinstance(got, Exception):
+                    fail(f"logprob:{cfg}", f"log_prob raises {type(got).__name__}: {str(got)[:120]}")
+                    continue
+                # cg-quad: quadratic part only (skip_logdet_forward): add back 0.5*log det = ent - 0.5*n*(1+log 2 pi)
+                want = lp_exp if cfg != "cg-quad" else lp_exp + (ent_exp - 0.5 * n2 * (1 + math.log(2 * math.pi)))
+                tol = 1e-6 if cfg == "cg-quad" else RTOL
+                if got.shape != want.shape or not np.all(np.abs(got - want) <= ATOL + tol * np.maximum(1.0, np.abs(want))):
+                    o = tuple(int(x) for x in np.argwhere(~(np.abs(got - want) <= ATOL + tol * np.maximum(1.0, np.abs(want))))[0]) \
+                        if got.shape == want.shape else ()
+                    fail(f"logprob:{cfg}", f"log_prob{list(o)} = {got[o] if got.shape == want.shape else got.shape!r}, Gaussian log "
+                         f"density of the transformed vector is {want[o] if got.shape == want.shape else want.shape!r}")
+            got = out["entropy"]
+            if isinstance(got, Exception):
+                fail("entropy", f"entropy raises {type(got).__name__}: {str(got)[:120]}")
+            elif got.shape != ent_exp.shape or not np.all(np.abs(got - ent_exp) <= ATOL + RTOL * np.maximum(1.0, np.abs(ent_exp))):
+                fail("entropy", f"entropy = {got.reshape(-1)[:3].tolist()}, 0.5*log det(2 pi e Sigma) = {ent_exp.reshape(-1)[:3].tolist()}")
+            L = out["tril"]
+            if isinstance(L, Exception):
+                fail("scale_tril", f"scale_tril raises {type(L).__name__}: {str(L)[:120]}")
+            else:
+                Lb = np.broadcast_to(L, B2 + (n2, n2)) if L.shape != B2 + (n2, n2) else L
+                if (not _relclose(Lb @ np.swapaxes(Lb, -1, -2), S2, _cov_scale(S2), 1e-7)
+                        or not np.all(np.diagonal(Lb, axis1=-2, axis2=-1) > 0) or np.any(np.triu(Lb, 1) != 0)):
+                    fail("scale_tril", "scale_tril is not the lower Cholesky factor (positive diagonal, L L^T = covariance) "
+                         f"of the result; min diagonal {np.min(np.diagonal(Lb, axis1=-2, axis2=-1)):.3g}")
+            X = out["X"]
+            if isinstance(X, Exception):
+                fail("rsample", f"rsample(base_samples) raises {type(X).__name__}: {str(X)[:120]}")
+            elif X.shape[:-1] != B2 + (n2,) or not _relclose(X @ np.swapaxes(X, -1, -2), S2, _cov_scale(S2), 1e-7):
+                fail("rsample", "stacked unit-vector responses X of the result do not satisfy X X^T = covariance")
+        if not (_allclose(out["src_mean"], src_mean) and _allclose(out["src_cov"], src_cov)
+                and _allclose(src_mean, mu) and _allclose(src_cov, S)):
+            fail("source-changed", "the operand distribution's mean/covariance changed")
+        got = out["src_lp"]
+        if isinstance(got, Exception) or got.shape != src_exp.shape or \
+                not np.all(np.abs(got - src_exp) <= ATOL + RTOL * np.maximum(1.0, np.abs(src_exp))):
+            fail("source-changed", f"log_prob of the operand after the operation = "
+                 f"{got if isinstance(got, Exception) else got.reshape(-1)[:3].tolist()}, expected {src_exp.reshape(-1)[:3].tolist()}")
+        return res
+    return lines, judge
+
+
+def hist_cases(ctx, rng):
+    quick = ctx.tier == "quick"
+    out = []
+    scal = [-2, -0.5, -1, -1.0, 3, 0.25, 2.0 ** -20, -(2.0 ** -20), 0, -3.0]
+    pres = [[], ["lp-torch"], ["lp-lo"], ["rsample"], ["scale_tril"], ["entropy"], ["variance", "cov"],
+            ["lp-lo", "lp-torch", "rsample"]]
+    for rep in REPS:
+        for b in [(), (2,), (2, 3)]:
+            def P(n, bb=b, rp=rep):
+                mu, A, S = gen_params(rng, bb, n, kind="root" if rp == "root" else "spd")
+                return {"rep": rp, "mu": mu, "S": S, "A": A}
+            for pre in (pres if not quick else [pres[0]] + rng.sample(pres[1:], 3)):
+                for s in (scal if not quick else rng.sample(scal[:4], 2) + rng.sample(scal[4:], 2)):
+                    n = rng.randint(1, 4)
+                    base = dict(P(n), kind="hist", pre=pre, z=_dyadic(rng, tuple(b) + (n,), -12, 12, 8))
+                    out.append(dict(base, ops=[["mul", s]]))
+                    if s != 0 and rng.random() < (0.5 if quick else 1.0):
+                        n = rng.randint(1, 4)
+                        base = dict(P(n), kind="hist", pre=pre, z=_dyadic(rng, tuple(b) + (n,), -12, 12, 8))
+                        out.append(dict(base, ops=[["div", s]]))
+                n = rng.randint(1, 4)
+                base = lambda: dict(P(n), kind="hist", pre=pre, z=_dyadic(rng, tuple(b) + (n,), -12, 12, 8))
+                neg = rng.choice([-2, -0.5, -3.0])
+                others = [
+                    [["add_scalar", -1.5]], [["radd_scalar", 2]], [["mul", neg], ["mul", rng.choice([-0.5, 4])]],
+                    [["mul", neg], ["use", "lp-torch"], ["div", -2]], [["mul", neg], ["add_scalar", 0.5], ["use", "entropy"]],
+                    [["expand", list((2,) + b)], ["mul", neg]], [["mul", neg], ["expand", list((3,) + b)]],
+                    [["unsqueeze", 0], ["mul", neg]], [["mul", neg], ["unsqueeze", -1]],
+                    [["jitter", 0.25], ["mul", neg]], [["mul", neg], ["jitter", 0.25]],
+                    [["sum", P(n, b, rng.choice(REPS))], ["mul", neg]], [["mul", neg], ["sum", P(n, b, rng.choice(REPS))]],
+                    [["expand", list((2,) + b)], ["use", "lp-torch"], ["div", neg]],
+                ]
+                if len(b):
+                    others += [[["getitem", idx_json((0,))], ["mul", neg]], [["mul", neg], ["getitem", idx_json((-1,))]],
+                               [["mul", neg], ["getitem", idx_json((Ellipsis, slice(0, max(1, n - 1))))]]]
+                else:
+                    others += [[["mul", neg], ["getitem", idx_json((slice(0, max(1, n - 1)),))]],
+                               [["getitem", idx_json(([n - 1, 0],))], ["mul", neg]]]
+                for ops in (others if not quick else rng.sample(others, 5)):
+                    out.append(dict(base(), ops=ops))
+    return out
+
+
+# =============================================================== getitem on distributions with tiny / zero / user-floored variances
+
+def run_getitem_var(case):
+    """`settings.min_variance` documents a clamp of `.variance` only: the marginal's covariance, its log_prob
+    and the parent's covariance must be the exact ones; `.variance` is max(diag, floor)."""
+    import contextlib
+    import torch
+    import gpytorch.settings as gs
+    np = _np()
+    mu, S, A, z = (np.array(case[k]) for k in ("mu", "S", "A", "z"))
+    rep, floor = case["rep"], case.get("floor")
+    idx = idx_unjson(case["idx"])
+    idx_p = idx_plain(idx)
+    shape = list(mu.shape)
+    where = (f"{rep} batch={tuple(shape[:-1])} n={shape[-1]} component sd scales={case['scales']} "
+             f"min_variance={'default' if floor is None else floor} d{idx_show(idx)}")
+    try:
+        mean_ref, cov_ref, amb, b_sel, e_sel, case1 = getitem_reference(mu, S, idx_p, idx)
+    except Exception:
+        mean_ref = None
+    err, out = None, {}
+    if mean_ref is not None and mean_ref.ndim > 0 and mean_ref.size > 0:
+        dg = np.diagonal(cov_ref, axis1=-2, axis2=-1)
+        v = mean_ref + np.sqrt(np.abs(dg)) * np.broadcast_to(z.reshape(-1)[:mean_ref.shape[-1]], mean_ref.shape)
+        try:
+            with warnings.catch_warnings():
+                warnings.simplefilter("ignore")
+                with (gs.min_variance(double_value=floor) if floor is not None else contextlib.nullcontext()):
+                    out["floor"] = _min_var()
+                    d = make_dist(rep, mu, S, A)
+                    out["pvar"] = d.variance.detach().numpy()
+                    r = d[idx_real(idx)]
+                    out["mean"] = r.mean.detach().numpy()
+                    out["cov"] = r.covariance_matrix.detach().numpy()
+                    out["var"] = r.variance.detach().numpy()
+                    out["pcov"] = d.covariance_matrix.detach().numpy()
+                    if np.all(dg > 0) and not amb.any():
+                        for cfg in ("torch-chol", "lo-chol"):
+                            try:
+                                with _cfg_ctx(cfg):
+                                    out["lp:" + cfg] = r.log_prob(torch.tensor(v, dtype=torch.float64)).detach().numpy()
+                            except Exception as e:
+                                out["lp:" + cfg] = e
+        except Exception as e:
+            err = e
+    lines, slots = [], []
+    if err is None and "lp:lo-chol" in out:
+        for o in itertools.product(*[range(t) for t in mean_ref.shape[:-1]]):
+            lines.append(f"logprob {C.mat_tokens(cov_ref[o])} {C.vec_tokens(mean_ref[o])} {C.vec_tokens(v[o])}")
+            slots.append(o)
+
+    def judge(replies):
+        res = {"status": "compared", "fails": [], "broke": []}
+        sfx = "int-event" if (mean_ref is not None and case1) else "event"
+
+        def fail(obs, msg):
+            res["fails"].append((f"getitem-variance-floor:{sfx}:{obs}", f"{where}: {msg}"))
+        if mean_ref is None or mean_ref.ndim == 0 or mean_ref.size == 0:
+            res["status"] = "excluded"
+            return res
+        if err is not None:
+            res["status"] = f"rejected:{type(err).__name__}"
+            if must_accept(idx_p, shape):
+                fail("raises", f"raises {type(err).__name__}: {str(err)[:140]}")
+            return res
+        fl = out["floor"]
+        if not _relclose(out["pcov"], S, _cov_scale(S)):
+            fail("parent-covariance", "covariance_matrix of the indexed distribution is not the given covariance")
+        pv = np.maximum(np.diagonal(S, axis1=-2, axis2=-1), fl)
+        if not _relclose(out["pvar"], pv, pv):
+            fail("parent-variance", f"variance != max(diag, min_variance={fl})")
+        if not _relclose(out["mean"], mean_ref, np.maximum(np.abs(mean_ref), 1e-30)):
+            fail("mean", f"mean (shape {out['mean'].shape}) != mean{idx_show(idx)} (shape {mean_ref.shape})")
+        if out["cov"].shape != cov_ref.shape:
+            fail("covariance", f"covariance shape {out['cov'].shape}, marginal has {cov_ref.shape}")
+            return res
+        tol = 1e-300 + RTOL * _cov_scale(cov_ref)
+        bad = ~(np.abs(out["cov"] - cov_ref) <= tol) & ~amb
+        if bad.any():
+            pos = tuple(int(x) for x in np.argwhere(bad)[0])
+            fail("covariance", f"covariance_matrix{list(pos)} = {out['cov'][pos]!r}, covariance of the selected components is "
+                 f"{cov_ref[pos]!r} (the min_variance clamp is documented for `.variance` only)")
+        mv = np.maximum(np.diagonal(cov_ref, axis1=-2, axis2=-1), fl)
+        if not _relclose(out["var"], mv, mv):
+            fail("variance", f"variance of the marginal != max(diag of the marginal covariance, min_variance={fl})")
+        if lines:
+            k = mean_ref.shape[-1]
+            exp = np.zeros(mean_ref.shape[:-1])
+            for o, rp in zip(slots, replies):
+                if rp == "singular":
+                    return res
+                kv = _kv(rp)
+                det = Fraction(kv["det"])
+                if det <= 0:
+                    return res
+                exp[o] = -0.5 * (float(Fraction(kv["quad"])) + _mp_log(det) + k * math.log(2 * math.pi))
+            for cfg in ("torch-chol", "lo-chol"):
+                got = out["lp:" + cfg]
+                if isinstance(got, Exception):
+                    fail(f"logprob:{cfg}", f"log_prob of the marginal raises {type(got).__name__}: {str(got)[:120]}")
+                elif got.shape != exp.shape or not np.all(np.abs(got - exp) <= ATOL + 1e-7 * np.maximum(1.0, np.abs(exp))):
+                    fail(f"logprob:{cfg}", f"log_prob of the marginal = {got.reshape(-1)[:3].tolist()}, exact marginal density "
+                         f"{exp.reshape(-1)[:3].tolist()}")
+        return res
+    return lines, judge
+
+
+def getitem_var_cases(ctx, rng):
+    np = _np()
+    quick = ctx.tier == "quick"
+    out = []
+    T14, T12 = 2.0 ** -23, 2.0 ** -20          # sd scales: variances ~1.4e-14, ~9.1e-13 (x Sigma_ii)
+    configs = [(None, [1.0, T14, T12, 1.0]), (None, [T12, 1.0, T14, T14]), (None, [1.0, 0.0, T14, 1.0]),
+               (None, [0.0, 0.0, 1.0, T12]), (1e-3, [1.0, 2.0 ** -7, 1.0, 2.0 ** -6]), (1e-3, [2.0 ** -7, 2.0 ** -7, 2.0 ** -23, 1.0]),
+               (0.5, [1.0, 0.25, 0.5, 0.125]), (1e-3, [1.0, 0.0, 2.0 ** -7, 1.0])]
+    for rep in ("dense", "lazy", "root"):
+        for batch in [(), (2,), (2, 3)]:
+            for floor, scales in configs:
+                if rep == "dense" and 0.0 in scales:
+                    continue       # torch's dense constructor needs a positive definite matrix
+                for n in ((4,) if quick else (2, 3, 4)):
+                    sc = np.array(scales[:n])
+                    mu, A, S = gen_params(rng, batch, n, kind="root" if rep == "root" else "spd")
+                    A2 = A * sc[:, None]
+                    S2 = S * sc[:, None] * sc[None, :]
+                    ev = list(range(-n, n)) + [slice(None), slice(1, None), slice(None, None, 2), slice(0, 2), [n - 1, 0],
+                                               ("tensor", [1, 1]), [1], Ellipsis]
+                    nb = len(batch)
+                    idxs = []
+                    if nb == 0:
+                        idxs = [(e,) for e in ev if not isinstance(e, int)] + [(Ellipsis, slice(1, 3))]
+                    else:
+                        pres = list(itertools.product(*[[0, -1, slice(None), slice(1, None)][:(4 if s > 2 else 3)] for s in batch]))
+                        for pre in (pres if not quick else [pres[0]] + rng.sample(pres, 3) + [tuple([slice(None)] * nb)]):
+                            for e in ev:
+                                idxs.append(tuple(pre) + (e,))
+                        idxs += [(Ellipsis, e) for e in ev] + [(0,), (-1,), (slice(None),)]
+                    for idx in idxs:
+                        out.append({"kind": "getitem-var", "rep": rep, "mu": mu, "S": S2, "A": A2, "floor": floor,
+                                    "scales": [float(x) for x in sc], "idx": idx_json(idx), "tiny": True,
+                                    "z": _dyadic(rng, (n,), -12, 12, 8)})
+    return out
+
+
+RUNNERS["hist"] = run_hist
+RUNNERS["getitem-var"] = run_getitem_var
